@@ -213,7 +213,7 @@ func fieldOrigin(fd *core.FuncDecl, e ast.Expr, depth int) string {
 	e = ast.Unparen(e)
 	if se, ok := e.(*ast.SelectorExpr); ok {
 		if f := core.FieldOf(info, se); f != nil && f.Pkg() != nil && isAPIPkg(f.Pkg().Path()) {
-			return f.Name()
+			return core.RefName(f)
 		}
 	}
 	if id, ok := e.(*ast.Ident); ok && depth < 3 {
@@ -331,7 +331,7 @@ func EndpointRoles(p *core.Program, r *core.Report, rulePrefix string) {
 					}
 				}
 				// named-port conversion on a peer: peer.ConvertPodNamedPort(..) / GetPeerPod().ConvertPodNamedPort
-				if strings.Contains(fn.Name(), "NamedPort") {
+				if strings.Contains(core.RefName(fn), "NamedPort") {
 					var roots []ast.Expr
 					if se, isSe := ast.Unparen(call.Fun).(*ast.SelectorExpr); isSe {
 						roots = append(roots, se.X)
@@ -408,7 +408,7 @@ func EndpointRoles(p *core.Program, r *core.Report, rulePrefix string) {
 				want = RoleDst
 			}
 			got := a.exprRole(info, peerArgs[0])
-			r.Check(got == want, rulePrefix+"-role-peer", fmt.Sprintf("%s: rule.%s is matched against the %s (call of %s)", fd.Key(), origin, want, fn.Name()), p.Pos(call.Pos()),
+			r.Check(got == want, rulePrefix+"-role-peer", fmt.Sprintf("%s: rule.%s is matched against the %s (call of %s)", fd.Key(), origin, want, core.RefName(fn)), p.Pos(call.Pos()),
 				"the peer argument "+core.ExprStr(peerArgs[0])+" has role "+got.String(),
 				fmt.Sprintf("a rule's %s list is matched against %s, whose role is %s; ingress rules list sources (from), egress rules list destinations (to)", origin, core.ExprStr(peerArgs[0]), got))
 			return true
@@ -425,7 +425,7 @@ func EndpointRoles(p *core.Program, r *core.Report, rulePrefix string) {
 				return true
 			}
 			fn := core.Callee(info, call)
-			if fn == nil || !p.IsModuleFunc(fn) || !(fn.Name() == "Selects" || fn.Name() == "getPoliciesSelectingPod") {
+			if fn == nil || !p.IsModuleFunc(fn) || !(core.RefName(fn) == "Selects" || core.RefName(fn) == "getPoliciesSelectingPod") {
 				return true
 			}
 			if !isPeerish(info.TypeOf(call.Args[0])) {
@@ -448,8 +448,8 @@ func EndpointRoles(p *core.Program, r *core.Report, rulePrefix string) {
 				want = RoleSrc
 			}
 			got := a.exprRole(info, call.Args[0])
-			r.Check(got == want, rulePrefix+"-role-dir", fmt.Sprintf("%s: %s(%s, %s) asks about the %s", fd.Key(), fn.Name(), core.ExprStr(call.Args[0]), dir, want), p.Pos(call.Pos()),
-				"peer role "+got.String(), fmt.Sprintf("policies govern the destination on ingress and the source on egress, but %s(…, %s) is asked about %s, whose role is %s", fn.Name(), dir, core.ExprStr(call.Args[0]), got))
+			r.Check(got == want, rulePrefix+"-role-dir", fmt.Sprintf("%s: %s(%s, %s) asks about the %s", fd.Key(), core.RefName(fn), core.ExprStr(call.Args[0]), dir, want), p.Pos(call.Pos()),
+				"peer role "+got.String(), fmt.Sprintf("policies govern the destination on ingress and the source on egress, but %s(…, %s) is asked about %s, whose role is %s", core.RefName(fn), dir, core.ExprStr(call.Args[0]), got))
 			return true
 		})
 	}
